@@ -271,7 +271,7 @@ class H2Protocol:
                     )
                 else:
                     await self._create_stream(event)
-                    await self.send(Updated(idle=False))
+                    await self.send(Updated(idle=self.idle))
 
                 if self.keep_alive_requests > self.config.keep_alive_max_requests:
                     self.connection.close_connection()
@@ -330,12 +330,15 @@ class H2Protocol:
             )
         except priority.MissingStreamError:
             # Received PRIORITY frame before HEADERS frame
-            self.priority.insert_stream(
-                stream_id=event.stream_id,
-                depends_on=event.depends_on or None,
-                weight=event.weight,
-                exclusive=event.exclusive,
-            )
+            try:
+                self.priority.insert_stream(
+                    stream_id=event.stream_id,
+                    depends_on=event.depends_on or None,
+                    weight=event.weight,
+                    exclusive=event.exclusive,
+                )
+            except priority.TooManyStreamsError:
+                return  # Priority information is advisory, ignore it
             self.priority.block(event.stream_id)
         await self.has_data.set()
 
@@ -348,6 +351,18 @@ class H2Protocol:
                 method = value.decode("ascii").upper()
             elif name == b":path":
                 raw_path = value
+
+        try:
+            self.priority.insert_stream(request.stream_id)
+        except priority.DuplicateStreamError:
+            # Recieved PRIORITY frame before HEADERS frame
+            pass
+        except priority.TooManyStreamsError:
+            # The priority tree is full (of idle prioritised streams)
+            self.connection.reset_stream(request.stream_id, h2.errors.ErrorCodes.REFUSED_STREAM)
+            return
+        else:
+            self.priority.block(request.stream_id)
 
         if method == "CONNECT":
             self.streams[request.stream_id] = WSStream(
@@ -374,13 +389,6 @@ class H2Protocol:
                 request.stream_id,
             )
         self.stream_buffers[request.stream_id] = StreamBuffer(self.context.event_class)
-        try:
-            self.priority.insert_stream(request.stream_id)
-        except priority.DuplicateStreamError:
-            # Recieved PRIORITY frame before HEADERS frame
-            pass
-        else:
-            self.priority.block(request.stream_id)
 
         await self.streams[request.stream_id].handle(
             Request(
